@@ -21,7 +21,7 @@ SHARD_TIMEOUT = {"quick": 600, "thorough": 1800}
 def gen_cases(tier, seed):
     rng = gen.rng_for(seed, "c13", tier)
     cases = []
-    n = 1000 if tier == "quick" else 8000
+    n = 1000 if tier == "quick" else 40000
     for k in range(n):
         rank = [2, 3, 4][k % 3]
         cases.append({"kind": "bn", "rank": rank, "C": int(rng.integers(1, 4)), "momentum": [0.1, 0.5, 1.0, None, 0.0][int(rng.integers(5))],
@@ -31,7 +31,7 @@ def gen_cases(tier, seed):
         cases.append({"kind": "nested-mode", "seed": int(rng.integers(2 ** 31)), "variant": k})
     for p in (0, 0.1, 0.3, 0.5, 0.9, 1):
         for dt in ("float32", "float64"):
-            for rep in range(1 if tier == "quick" else 6):
+            for rep in range(1 if tier == "quick" else 20):
                 cases.append({"kind": "dropout", "p": p, "dtype": dt, "seed": int(rng.integers(2 ** 31)), "shape": [[200, 200], [50, 40, 20], [40000]][rep % 3]})
     return cases
 
